@@ -261,12 +261,8 @@ func ruleC16Reserve(cx *Ctx) {
 	cx.R.Check(isParam, rule, name, "stored value", cx.P.where(st.in), "the stored element is the pushed argument")
 	// resize bit tested before the CAS: CAS guarded by (p & 1 == 1) == false
 	// the guard on (p & 1) must be true for even p and false for odd p, whatever its spelling
-	bitOK := false
-	for _, g := range guardsAt(cas.Block()) {
-		b, ok := g.Cond.(*ssa.BinOp)
-		if !ok {
-			continue
-		}
+	// lowBit: the comparison b holds exactly for an even value of p when truth is true (for an odd one when false)
+	lowBit := func(b *ssa.BinOp, p ssa.Value, truth bool) bool {
 		var masked ssa.Value
 		var k int64
 		if c, isC := constInt(b.Y); isC {
@@ -274,11 +270,11 @@ func ruleC16Reserve(cx *Ctx) {
 		} else if c, isC := constInt(b.X); isC {
 			masked, k = b.Y, c
 		} else {
-			continue
+			return false
 		}
 		m, isAnd := masked.(*ssa.BinOp)
 		if !isAnd {
-			continue
+			return false
 		}
 		one := false
 		switch {
@@ -298,7 +294,7 @@ func ruleC16Reserve(cx *Ctx) {
 			}
 		}
 		if !one {
-			continue
+			return false
 		}
 		eval := func(x int64) bool {
 			switch b.Op {
@@ -319,8 +315,25 @@ func ruleC16Reserve(cx *Ctx) {
 			}
 			return false
 		}
-		if eval(0) == g.Truth && eval(1) != g.Truth {
+		return eval(0) == truth && eval(1) != truth
+	}
+	bitOK := false
+	for _, g := range guardsAt(cas.Block()) {
+		if b, ok := g.Cond.(*ssa.BinOp); ok && lowBit(b, p, g.Truth) {
 			bitOK = true
+		}
+		// the test may be a one-line predicate of the module (isResizing(p)): decided on its body
+		if c, isC := g.Cond.(*ssa.Call); isC && !c.Call.IsInvoke() && len(c.Call.Args) == 1 && c.Call.Args[0] == p {
+			if h := calleeOf(c); h != nil && h.Pkg != nil && strings.HasPrefix(h.Pkg.Pkg.Path(), modPath) {
+				oh := origin(h)
+				if len(oh.Blocks) == 1 && len(oh.Params) == 1 {
+					if r, isR := oh.Blocks[0].Instrs[len(oh.Blocks[0].Instrs)-1].(*ssa.Return); isR && len(r.Results) == 1 {
+						if hb, isB := r.Results[0].(*ssa.BinOp); isB && lowBit(hb, oh.Params[0], g.Truth) {
+							bitOK = true
+						}
+					}
+				}
+			}
 		}
 	}
 	cx.R.Check(bitOK, rule, name, "resize bit", cx.P.where(cas), "an odd producerIndex (resize in progress) is never CASed: the attempt spins")
